@@ -32,10 +32,10 @@ def _is_max(H, vals, i):
     return H.and_(*[H.ge(vals[i], v) for v in vals])
 
 
-def _layer(H, kind, n_in, n_w, per_channel, bias, cin, cout):
-    in_q = MPSPerLayerQtz(PRECS[n_in], PACTAct)
-    out_q = MPSPerLayerQtz(PRECS[2], PACTAct)
-    w_q = MPSPerChannelQtz(PRECS0[n_w], MinMaxWeight, {'cout': cout}) if per_channel else MPSPerLayerQtz(PRECS[n_w], MinMaxWeight, {'cout': cout})
+def _layer(H, kind, n_in, n_w, per_channel, bias, cin, cout, gumbel=False):
+    in_q = MPSPerLayerQtz(PRECS[n_in], PACTAct, gumbel_softmax=gumbel)
+    out_q = MPSPerLayerQtz(PRECS[2], PACTAct, gumbel_softmax=gumbel)
+    w_q = MPSPerChannelQtz(PRECS0[n_w], MinMaxWeight, {'cout': cout}) if per_channel else MPSPerLayerQtz(PRECS[n_w], MinMaxWeight, {'cout': cout}, gumbel_softmax=gumbel)
     b_q = MPSBiasQtz(QuantizerBias, {'precision': 32, 'cout': cout})
     if kind == 'conv2d':
         layer = MPSConv2d(nn.Conv2d(cin, cout, 1, bias=bias), out_q, w_q, b_q)
@@ -150,16 +150,16 @@ def h_cost_per_channel(H, kind, n_w):
 
 
 # ------------------------------------------------------------------------------------------------- C02
-def h_export_equiv(H, kind, n_in, n_w, bias):
+def h_export_equiv(H, kind, n_in, n_w, bias, gumbel=False):
     """eval-mode forward of the MPS layer == forward of the Quant layer export() builds, on every input (per-layer search);
     the exported layer uses the precisions summary() reports and re-uses the trained quantizer objects"""
     cin, cout = (1, 1) if bias else (2, 2)        # the bias path forks on every zero-scale test: keep it to one channel
     if kind == 'identity':
-        out_q = MPSPerLayerQtz(PRECS[n_in], PACTAct)
+        out_q = MPSPerLayerQtz(PRECS[n_in], PACTAct, gumbel_softmax=gumbel)
         layer = MPSIdentity(out_q)
         in_q = w_q = None
     else:
-        layer, in_q, out_q, w_q = _layer(H, kind, n_in, n_w, False, bias, cin, cout)
+        layer, in_q, out_q, w_q = _layer(H, kind, n_in, n_w, False, bias, cin, cout, gumbel)
         H.set_(layer.weight, H.tensor('weight', H.shape(layer.weight)))
         if bias:
             H.set_(layer.bias, H.tensor('bias', (cout,)))
@@ -249,9 +249,10 @@ HARNESSES = [
                     for m in ('forward', 'export', 'summary')] +
                    [_M + 'quant/nn/conv2d.py::QuantConv2d.forward', _M + 'quant/nn/linear.py::QuantLinear.forward', _M + 'quant/nn/identity.py::QuantIdentity.forward',
                     _M + 'nn/qtz.py::MPSPerLayerQtz.forward', _M + 'nn/qtz.py::MPSBaseQtz.effective_scale', _M + 'nn/qtz.py::MPSBiasQtz.forward'],
-         quick=[dict(kind='identity', n_in=3, n_w=1, bias=False)] + [dict(kind=k, n_in=2, n_w=2, bias=b) for k in ('conv2d', 'linear') for b in _B] +
-               [dict(kind='conv1d', n_in=2, n_w=2, bias=True)],
-         thorough=[dict(kind='identity', n_in=n, n_w=1, bias=False) for n in (1, 2, 3)] +
-                  [dict(kind=k, n_in=ni, n_w=nw, bias=b) for k in ('conv2d', 'conv1d', 'linear') for ni in (1, 2, 3) for nw in (1, 2, 3) for b in _B],
+         quick=[dict(kind='identity', n_in=3, n_w=1, bias=False), dict(kind='identity', n_in=2, n_w=1, bias=False, gumbel=True)] +
+               [dict(kind=k, n_in=2, n_w=2, bias=b) for k in ('conv2d', 'linear') for b in _B] +
+               [dict(kind='conv1d', n_in=2, n_w=2, bias=True), dict(kind='linear', n_in=2, n_w=1, bias=False, gumbel=True)],
+         thorough=[dict(kind='identity', n_in=n, n_w=1, bias=False, gumbel=g) for n in (1, 2, 3) for g in _B] +
+                  [dict(kind=k, n_in=ni, n_w=nw, bias=b, gumbel=g) for k in ('conv2d', 'conv1d', 'linear') for ni in (1, 2, 3) for nw in (1, 2, 3) for b in _B for g in _B],
          timeout=90),
 ]
